@@ -158,7 +158,7 @@ class Ctx:
         return pre + "_*"
 
     # ----------------------------------------------------------------- replay
-    def replay(self, adapter, graph=None, sim=None, shards=None, maxlen=40, limit=0, name=None, timeout=900, env=None, vh=None):
+    def replay(self, adapter, graph=None, sim=None, shards=None, maxlen=40, limit=0, name=None, timeout=900, env=None, vh=None, chunk=0):
         """Step behaviours through the real code; returns (list of trace files, merged summary)."""
         shards = shards or NCPU
         name = name or adapter
@@ -166,7 +166,7 @@ class Ctx:
 
         # tours / simulated behaviours are computed ONCE and written shard by shard; the shards only execute
         prefix = self.path("beh", name)
-        cmd = [vh, "tours", "-out", prefix, "-shards", str(shards), "-seed", str(self.seed), "-maxlen", str(maxlen), "-limit", str(limit)]
+        cmd = [vh, "tours", "-out", prefix, "-shards", str(shards), "-chunk", str(chunk), "-seed", str(self.seed), "-maxlen", str(maxlen), "-limit", str(limit)]
         cmd += ["-graph", graph] if graph else ["-sim", sim]
         t0 = time.time()
         r = self.sh(cmd, timeout=timeout, check=False)
@@ -192,7 +192,7 @@ class Ctx:
 
         t = time.time()
         with concurrent.futures.ThreadPoolExecutor(shards) as ex:
-            res = list(ex.map(one, range(shards)))
+            res = list(ex.map(one, range(ginfo.get("files", shards))))
         files = [r[0] for r in res]
         merged = dict(behaviours=0, steps=0, panics=0, action_counts={}, samples=[])
         for _, s in res:
